@@ -120,6 +120,26 @@ fn run_async_driven<R: futures_util::io::AsyncRead + mediasan_common::AsyncSkip 
     out.join(",")
 }
 
+/// webpsan's `ChunkDataReader` over a `Cursor`: the header of the chunk at offset 0 is read first (depth 2: also the
+/// header of the chunk inside it, through `child_reader`), then the history runs on `data_reader()`
+fn run_chunk_data(d: Vec<u8>, depth: u8, ops: &[Op]) -> String {
+    use webpsan::verif_reader::ChunkReader;
+    let mut outer = ChunkReader::new(Cursor::new(d), mediasan_common::parse::FourCC { value: *b"RIFF" });
+    if outer.read_any_header().is_err() {
+        return "no-header".into();
+    }
+    if depth == 1 {
+        run_sync(outer.data_reader(), ops)
+    } else {
+        let mut child = outer.child_reader();
+        if child.read_any_header().is_err() {
+            return "no-header".into();
+        }
+        let r = run_sync(child.data_reader(), ops);
+        r
+    }
+}
+
 pub const ADAPTERS: [&str; 17] = [
     "abufreader-pend", "apinbox-pend", "arefmut", "abox",
     "cursor", "seekskip", "bufreader", "bufreader-seekskip", "refmut", "box", "bufreader-box-bufreader", "file",
@@ -135,6 +155,8 @@ pub fn run_adapter(adapter: &str, cap: usize, s: &Sparse, ops: &[Op]) -> String 
             _ => {
                 let d = dense.clone().expect("dense stream");
                 match adapter {
+                    "chunkdata1" => run_chunk_data(d, 1, ops),
+                    "chunkdata2" => run_chunk_data(d, 2, ops),
                     "cursor" => run_sync(Cursor::new(d), ops),
                     "seekskip" => run_sync(SeekSkipAdapter(Cursor::new(d)), ops),
                     "bufreader" => run_sync(BufReader::with_capacity(cap, Cursor::new(d)), ops),
@@ -211,6 +233,106 @@ fn within(ops: &[Op], len: u64) -> Vec<Op> {
     out
 }
 
+/// a RIFF-style chunk: name, little-endian length, body, pad byte when the length is odd
+fn chunk(name: &[u8; 4], body: &[u8]) -> Vec<u8> {
+    let mut c = name.to_vec();
+    c.extend_from_slice(&(body.len() as u32).to_le_bytes());
+    c.extend_from_slice(body);
+    if body.len() % 2 == 1 {
+        c.push(0);
+    }
+    c
+}
+
+/// histories on the data reader of a chunk (depth 1) and of a chunk nested in it (depth 2): exhaustively short ones on
+/// bodies of 0..5 bytes - every amount from 0 to one past the body, queries at every point, also after the body is
+/// exhausted - and long random ones; a history stays inside the body except, possibly, for its last operation
+fn chunk_data_cases<W: Write>(opts: &Opts, out: &mut W, rng: &mut Rng) {
+    let alphabet = [Op::Read(0), Op::Read(1), Op::Read(2), Op::Skip(0), Op::Skip(1), Op::Skip(2), Op::Skip(3), Op::Pos, Op::Len];
+    let n = alphabet.len();
+    let l = if opts.tier_thorough { 5 } else { 4 };
+    let mut idx = 0u64;
+    for depth in [1u8, 2] {
+        for blen in 0..=5usize {
+            let body: Vec<u8> = (0..blen as u8).map(|i| 0xa0 + i).collect();
+            let inner = chunk(b"VP8 ", &body);
+            let mut d = if depth == 1 { inner.clone() } else {
+                // the enclosing chunk ends with the nested one, or two bytes after it
+                let mut b = inner.clone();
+                if blen % 2 == 0 {
+                    b.extend_from_slice(&[0xee, 0xef]);
+                }
+                chunk(b"ANMF", &b)
+            };
+            d.extend_from_slice(&[0xf0, 0xf1, 0xf2]); // bytes after the chunk: never handed out
+            let s = Sparse::from_bytes(&d);
+            for len in 1..=l {
+                for code in 0..n.pow(len as u32) {
+                    let mut c = code;
+                    let mut ops = vec![];
+                    for _ in 0..len {
+                        ops.push(alphabet[c % n]);
+                        c /= n;
+                    }
+                    // inside the body, except for the last operation
+                    let inside = within(&ops[..len - 1], blen as u64);
+                    if inside.len() != len - 1 {
+                        continue;
+                    }
+                    idx += 1;
+                    if !opts.mine(idx) {
+                        continue;
+                    }
+                    emit(out, &format!("cd{depth}-{blen}-{len}-{code}"), if depth == 1 { "chunkdata1" } else { "chunkdata2" }, 0, &s, &ops);
+                }
+            }
+        }
+    }
+    let m = if opts.tier_thorough { 6000 } else { 600 };
+    for i in 0..m {
+        if !opts.mine(i) {
+            continue;
+        }
+        let mut r = rng.fork(i);
+        let depth = 1 + (i % 2) as u8;
+        let blen = r.below(70) as usize;
+        let body = r.bytes(blen);
+        let inner = chunk(b"ALPH", &body);
+        let mut d = if depth == 1 { inner } else {
+            let mut b = inner;
+            let extra = r.below(4) as usize;
+            b.extend(r.bytes(extra));
+            chunk(b"ANMF", &b)
+        };
+        let tail = r.below(12) as usize;
+        d.extend(r.bytes(tail));
+        if r.chance(1, 8) {
+            // a file that ends inside the body
+            let cut = r.below(d.len() as u64 + 1) as usize;
+            d.truncate(cut.max(if depth == 1 { 8 } else { 16 }));
+        }
+        let nops = 1 + r.below(30) as usize;
+        let mut ops: Vec<Op> = (0..nops)
+            .map(|_| match r.below(8) {
+                0 | 1 => Op::Read(r.below(12)),
+                2 => Op::Read(0),
+                3 => Op::Skip(0),
+                4 | 5 => Op::Skip(r.below(12)),
+                6 => Op::Pos,
+                _ => Op::Len,
+            })
+            .collect();
+        let avail = (d.len().saturating_sub(if depth == 1 { 8 } else { 16 })).min(blen) as u64;
+        let inside = within(&ops, avail);
+        if inside.len() < ops.len() && r.chance(1, 2) {
+            ops.truncate(inside.len() + 1); // one operation that leaves the body, last
+        } else {
+            ops = inside;
+        }
+        emit(out, &format!("cdrnd-{i}"), if depth == 1 { "chunkdata1" } else { "chunkdata2" }, 0, &Sparse::from_bytes(&d), &ops);
+    }
+}
+
 pub fn run<W: Write>(opts: &Opts, out: &mut W) {
     let mut rng = Rng::new(opts.seed ^ 0xC15);
     // exhaustive: all histories up to length L over a 9-operation alphabet on an 8-byte stream, capacities 1..=9
@@ -247,6 +369,7 @@ pub fn run<W: Write>(opts: &Opts, out: &mut W) {
             }
         }
     }
+    chunk_data_cases(opts, out, &mut rng.fork(0xCD));
     // long random histories on dense streams, every adapter, capacities 1..64 and the default 8192
     let m = if opts.tier_thorough { 20000 } else { 2000 };
     for i in 0..m {
